@@ -87,7 +87,7 @@ async def _noop():
 
 
 LOG = logging.getLogger("verif-c06")
-LOG.setLevel(logging.CRITICAL + 1)
+__import__("common").quiet(LOG)
 LOG.propagate = False
 
 
